@@ -58,4 +58,39 @@ CLAIMED["C05"] = dict(
          "vm_compute correspondence and NewRR(String()) oracles on records from wire and from text for every type each run; "
          "48 recorded findings in known_findings.json",
     technique="machine-checked proof in Coq (induction over octet strings and grammars, exhaustive code-point sweeps) + model/implementation correspondence by vm_compute")
+CLAIMED["C11"] = dict(
+    text="Coq theorems over an octet-level model of TsigGenerate/tsigVerify/tsigBuffer/stripTsig with HMAC as a section variable: "
+         "digest input = RFC 8945 4.3 layout, generate-verify, verify succeeds iff MAC/key/algorithm/time conditions, "
+         "no-TSIG never verified, digest injectivity, envelope chains; model tied to /repo by vm_compute correspondence on the "
+         "hooked tsigBuffer and independent crypto/hmac over the model's octets",
+    technique="machine-checked proof in Coq (octet walkers with checked slicing, injectivity of the digest layout) + model/implementation correspondence by vm_compute")
+CLAIMED["C18"] = dict(
+    text="Coq theorems over an octet-level model of SIG.Sign/SIG.Verify with the signature scheme as a section variable: "
+         "sign layout, sign succeeds for any compression setting, sign-verify for any ARCOUNT, verify soundness, no panic on any "
+         "input of at least header size, injectivity of the signed data; model tied to /repo by vm_compute correspondence incl. all "
+         "truncations and bit flips of signed messages",
+    technique="machine-checked proof in Coq (checked slicing, case analysis of every offset computation) + model/implementation correspondence by vm_compute")
+CLAIMED["C15"] = dict(
+    text="Coq theorems over state-machine models of inAxfr/inIxfr: exact delivery for EVERY split of the record stream into envelopes "
+         "(RFC 5936 / RFC 1995 incl. up-to-date and AXFR fallback), error cases, TSIG chain as a section variable (complete implies "
+         "all verified); models tied to /repo by scripted Transfer.In correspondence over all compositions of small zones with faults",
+    technique="machine-checked proof in Coq (induction over envelope splits) + model/implementation correspondence by vm_compute")
+CLAIMED["C13"] = dict(
+    text="Coq invariants over a labelled transition system of Server start/serve/shutdown (any number of connections, requests, "
+         "callers): shutdown returns only after handlers, no handler after shutdown returned, serve returns nil, double start / "
+         "unstarted shutdown error, no stuck reader, progress; tied to /repo by trace acceptance of real event logs from scripted "
+         "listeners; goroutine leaks and data races are runtime facts (partial)",
+    technique="machine-checked proof in Coq (invariant preserved by every LTS step) + trace acceptance of implementation event logs by vm_compute")
+CLAIMED["C07"] = dict(
+    text="Coq theorems over models of zlexer and ZoneParser: buffer writes in range for every text, linear token count, sticky first "
+         "error, $GENERATE range bound, nested $GENERATE rejected, no file opened unless includes are allowed, include depth bound "
+         "(any file system, self-including files); models tied to /repo by token-stream and parse-event correspondence on hostile "
+         "text; allocation measured, not proved (partial)",
+    technique="machine-checked proof in Coq (structural recursion on the input, include-depth measure) + model/implementation correspondence by vm_compute")
+CLAIMED["C06"] = dict(
+    text="Coq theorems: the parser model refines the RFC 1035 5.1 denotation of abstract zones (owner/TTL/class inheritance, $ORIGIN, "
+         "$TTL, name completion, TTL units), $GENERATE expansion, $INCLUDE splice keeps the includer's origin; text-to-token "
+         "rendering equivalence by per-case check (partial); models tied to /repo by vm_compute correspondence over random zones x "
+         "equivalent renderings",
+    technique="machine-checked proof in Coq (refinement of a denotational fold by the parser state machine) + model/implementation correspondence by vm_compute")
 NOT_YET = {}
